@@ -418,11 +418,28 @@ def run(ctx):
     for c in emits:
         cst = repo.stmt_of(c)
         in_lookup_branch = any(x is cst for b in lookup_if.body for x in ast.walk(b))
-        on_negative_branch = any(t is lookup_if.test and pol is False for t, pol in cond_guards(g, cst))
-        ok = in_lookup_branch or on_negative_branch
+        gds = list(cond_guards(g, cst))
+        on_negative_branch = any(t is lookup_if.test and pol is False for t, pol in gds)
+        # values the lookup guard rejects (atomic, or of a different type on the two sides: null -> 2) can still lie on an ignored path:
+        # a separate test of the table must have excluded that
+        def _asks_ignore(t):
+            for x in ast.walk(t):
+                if isinstance(x, ast.Call):
+                    for tt in ctx.cg.resolve(x.func, dd):
+                        if tt[0] == 'func' and tt[1] in repo.functions and any(isinstance(y, ast.Attribute) and y.attr == 'differs' for y in ast.walk(repo.functions[tt[1]])):
+                            return True
+            return False
+        ignore_excluded = any(t is not lookup_if.test and pol is False and _asks_ignore(t) for t, pol in gds)
+        ok = in_lookup_branch or (on_negative_branch and ignore_excluded)
+        if on_negative_branch and not ignore_excluded and not in_lookup_branch:
+            ctx.inst('R14.7', GEN + ':diff_dicts', repo.norm(c), False,
+                     'this entry is emitted for values the lookup guard rejects (atomic, or of different types on the two sides) without asking whether the path is ignored: '
+                     'with {"Ignore": {"/cells/*/execution_count": true}} a change 1 -> 2 is hidden but null -> 2 (unexecuted -> executed) is reported; metadata that is a dict '
+                     'on one side and a NotebookNode on the other is reported as replaced under --ignore-metadata', c)
+            continue
         ctx.inst('R14.7', GEN + ':diff_dicts', repo.norm(c), ok,
                  'emitted from the configured differ\'s result' if in_lookup_branch else
-                 ('emitted only for values the lookup guard rejects (atomic or of changed type)' if ok else
+                 ('emitted only for values the lookup guard rejects (atomic or of changed type) and the path is not ignored' if ok else
                   'this entry is emitted for a key present on both sides without consulting the differ table: an ignore installed for the path '
                   '(e.g. /cells/*/source) is bypassed for the inputs this shortcut catches'), c)
     swallowed_value_errors(ctx, 'R14.8')
